@@ -10,6 +10,7 @@ package c16
 
 import (
 	"bytes"
+	"compress/gzip"
 	"encoding/json"
 	"fmt"
 	"os"
@@ -84,12 +85,49 @@ type harSides struct{ req, resp string }
 
 // collectorObfuscate runs one transaction through a freshly configured HAR
 // collector processor and returns the bodies of the exported HAR entry.
+// transport describes how the two bodies travel: the collector's size limit, what the content-length
+// headers declare, and whether a body is gzip-compressed (the collector exports the decompressed text)
+type transport struct {
+	MaxSize  int    `json:"transaction_max_size_bytes"`
+	ReqCL    string `json:"request_content_length"`  // "" (absent, chunked) | honest | small
+	RespCL   string `json:"response_content_length"` // "" | honest | small
+	ReqGzip  bool   `json:"request_gzip,omitempty"`
+	RespGzip bool   `json:"response_gzip,omitempty"`
+}
+
+var plainTransport = transport{MaxSize: 1 << 30}
+
+func genTransport(t *rapid.T) transport {
+	if chance(t, "plain-transport", 1, 2) {
+		return plainTransport
+	}
+	cl := []string{"", "", "honest", "small"}
+	return transport{MaxSize: rapid.SampledFrom([]int{1 << 30, 4096, 256, 48}).Draw(t, "max-size"),
+		ReqCL: rapid.SampledFrom(cl).Draw(t, "req-cl"), RespCL: rapid.SampledFrom(cl).Draw(t, "resp-cl"),
+		ReqGzip: chance(t, "req-gzip", 1, 4), RespGzip: chance(t, "resp-gzip", 1, 4)}
+}
+
+func gz(s string) string {
+	var b bytes.Buffer
+	w := gzip.NewWriter(&b)
+	_, _ = w.Write([]byte(s))
+	_ = w.Close()
+	return b.String()
+}
+
+// errNotExported: the collector dropped the transaction (declared size over its limit): nothing is exposed
+var errNotExported = fmt.Errorf("not exported")
+
 func collectorObfuscate(reqBody, respBody string, exclusions []string) (harSides, error) {
+	return collectorObfuscateVia(reqBody, respBody, exclusions, plainTransport)
+}
+
+func collectorObfuscateVia(reqBody, respBody string, exclusions []string, tr transport) (harSides, error) {
 	meta := &streamtypes.ProcessorMetaData{
 		Name: "harCollectorUnderTest",
 		Parameters: map[string]streamtypes.ProcessorParam{
 			"exporter_id":                {Name: "exporter_id", Value: publictypes.NewParamValue(exporterID)},
-			"transaction_max_size_bytes": {Name: "transaction_max_size_bytes", Value: publictypes.NewParamValue(1 << 30)},
+			"transaction_max_size_bytes": {Name: "transaction_max_size_bytes", Value: publictypes.NewParamValue(tr.MaxSize)},
 			"obfuscate_enabled":          {Name: "obfuscate_enabled", Value: publictypes.NewParamValue(true)},
 			"obfuscate_exclusions":       {Name: "obfuscate_exclusions", Value: publictypes.NewParamValue(append([]string{}, exclusions...))},
 		},
@@ -98,11 +136,29 @@ func collectorObfuscate(reqBody, respBody string, exclusions []string) (harSides
 	if err != nil {
 		return harSides{}, fmt.Errorf("NewProcessor: %v", err)
 	}
+	reqH := map[string]string{"content-type": "application/json", "authorization": "Bearer t", "name": "hdr-name"}
+	respH := map[string]string{"content-type": "application/json", "name": "hdr-name"}
+	declared := 0
+	wire := func(body string, zip bool, cl string, h map[string]string) string {
+		if zip {
+			body = gz(body)
+			h["content-encoding"] = "gzip"
+		}
+		switch cl {
+		case "honest":
+			h["content-length"] = fmt.Sprint(len(body))
+			declared += len(body)
+		case "small":
+			h["content-length"] = "7"
+			declared += 7
+		}
+		return body
+	}
+	reqBody, respBody = wire(reqBody, tr.ReqGzip, tr.ReqCL, reqH), wire(respBody, tr.RespGzip, tr.RespCL, respH)
 	stream := testutils.NewMockAPIStreamFull(
 		publictypes.StreamTypeResponse, "POST",
 		"https://example.com/users/12345/orders?name=n1&a=1",
-		map[string]string{"content-type": "application/json", "authorization": "Bearer t", "name": "hdr-name"},
-		map[string]string{"content-type": "application/json", "name": "hdr-name"},
+		reqH, respH,
 		reqBody, respBody, 200,
 	)
 	collectorCap.take()
@@ -110,6 +166,9 @@ func collectorObfuscate(reqBody, respBody string, exclusions []string) (harSides
 		return harSides{}, fmt.Errorf("Execute: %v", err)
 	}
 	recs := collectorCap.take()
+	if len(recs) == 0 && declared > tr.MaxSize {
+		return harSides{}, errNotExported
+	}
 	if len(recs) != 1 {
 		return harSides{}, fmt.Errorf("the collector exported %d records for one transaction", len(recs))
 	}
@@ -180,11 +239,22 @@ func TestHARCollectorBodies(t *testing.T) {
 		rsReq, rsResp := refFromJSONPaths(excl, reqPrefix), refFromJSONPaths(excl, respPrefix)
 		passReq, passResp := passedByCollector(excl, reqPrefix), passedByCollector(excl, respPrefix)
 		classify(r, rq.root, rsReq, passReq)
-		whole := map[string]any{"route": "har-collector", "request_body": rq.text, "response_body": rp.text, "exclusions": excl}
+		tr := genTransport(t)
+		whole := map[string]any{"route": "har-collector", "request_body": rq.text, "response_body": rp.text, "exclusions": excl, "transport": tr}
 		if nonTrivial(rq.root, rsReq) || nonTrivial(rp.root, rsResp) {
 			r.NonTrivial(ev.JSON(whole), func() any { return whole })
 		}
-		out, err := collectorObfuscate(rq.text, rp.text, excl)
+		if tr != plainTransport {
+			r.Class("transport: size limit / content-length / gzip varied")
+			if len(rq.text) > tr.MaxSize || len(rp.text) > tr.MaxSize {
+				r.Class("transport: a body longer than the collector's size limit")
+			}
+		}
+		out, err := collectorObfuscateVia(rq.text, rp.text, excl, tr)
+		if err == errNotExported {
+			r.Class("transport: transaction dropped (declared size over the limit)")
+			return
+		}
 		if err != nil {
 			t.Fatalf("%s", r.Fail(whole, "har-collector: %v", err))
 		}
